@@ -109,6 +109,11 @@ func copyDir(src, dst string) error {
 // of copies in which subsets of index files were removed, reopened read-write and read-only.
 func (x *Exec) ixProbe(op *Op) {
 	segs := x.layout()
+	if len(segs) == 0 {
+		// a directory without a log (a read-only first session): no index file to remove, and a read-write open of it
+		// (which creates the first segment) is not comparable with a read-only one (which creates nothing)
+		return
+	}
 	tmp := x.dir + "-probe"
 	defer os.RemoveAll(tmp)
 	o := x.cur
